@@ -76,6 +76,10 @@ def check_r08a(repo, rep, uni, cons):
                        p.type.text)
                 continue
             exc = R08A_EXCEPTIONS.get(k)
+            if exc is None and ov.ctx == 'finalizer' and \
+                    ov.name == '#finalize' and p.name == 'obj':
+                exc = R08A_EXCEPTIONS[('yaql:_setup_context.finalize',
+                                       'obj')]
             if exc:
                 rep.ob('R08a', site, True, 'reviewed exception: ' + exc)
                 continue
@@ -197,6 +201,27 @@ def check_r08c(repo, rep, uni):
     # recursively -- that recursion is what applies the limiter (and the
     # plain-data conversion) at every depth
     rec_names = {fi.name} | {p for p in params if p == 'rec'}
+    # local one-line wrappers `def conv(x): return rec(x, limit, ...)`
+    for n2 in ast.walk(fi.node):
+        lam = name = None
+        if isinstance(n2, ast.FunctionDef) and n2 is not fi.node:
+            b = model.strip_docstring(n2.body)
+            if len(b) == 1 and isinstance(b[0], ast.Return):
+                lam, name, ret = n2, n2.name, b[0].value
+        elif isinstance(n2, ast.Assign) and isinstance(
+                n2.value, ast.Lambda) and isinstance(
+                n2.targets[0], ast.Name):
+            lam, name, ret = n2.value, n2.targets[0].id, n2.value.body
+        if lam is None or not lam.args.args:
+            continue
+        p0 = lam.args.args[0].arg
+        if isinstance(ret, ast.Call) and isinstance(
+                ret.func, ast.Name) and ret.func.id in rec_names and \
+                len(ret.args) >= 2 and isinstance(
+                ret.args[0], ast.Name) and ret.args[0].id == p0 and \
+                isinstance(ret.args[1], ast.Name) and \
+                ret.args[1].id == limit:
+            rec_names = rec_names | {name}
 
     def wrapped(name_node):
         p = getattr(name_node, '_parent', None)
